@@ -651,8 +651,14 @@ fn monomorphize_contexts(
         let name2 = caps["name2"].to_string();
 
         for context in contexts {
-            // TODO: is this always correct?? Seems to be for CArc_c_void
-            let context_ty = format!("_{}____", context);
+            // cbindgen closes a generic instantiation (`CArc_c_void`) with `___` before the `__`
+            // that separates it from the next argument. A context without type arguments
+            // (`NoContext`, a plain struct) is followed by the separator alone.
+            let context_ty = if context.contains('_') {
+                format!("_{}____", context)
+            } else {
+                format!("_{}_", context)
+            };
 
             let name = name.replace("_Context_", &context_ty);
             let name2 = name2.replace("_Context_", &context_ty);
